@@ -29,7 +29,8 @@ def gen_program(rng):
         n += 10
 
     if rng.random() < 0.4:
-        add(rng.choice(["DEFINT A", "DEFDBL X-Z", "DEFSTR G", "DEFINT N", "DEFSNG D", "DEFINT F", "DEFSTR F", "DEFDBL F-G"]))
+        add(rng.choice(["DEFINT A", "DEFDBL X-Z", "DEFSTR G", "DEFINT N", "DEFSNG D", "DEFINT F", "DEFSTR F", "DEFDBL F-G",
+                        "DEFDBL X-Z", "DEFDBL A", "DEFINT X-Z", "DEFDBL G", "DEFDBL A-E"]))
     add("A=5:X=7:Y=11:S$=\"glob\":N%=3:F=2:Z=1")
     for i in range(rng.randint(1, 4)):
         name = "FN" + rng.choice(["A", "B", "C", "D", "E1", "SUM", "F"]) + str(i)
@@ -44,7 +45,7 @@ def gen_program(rng):
             terms = []
             for p in ps:
                 terms.append("LEN(%s)" % p if p.endswith("$") else p)
-            terms.append(rng.choice(["A", "X", "1", "Y*2", "N%"]))
+            terms.append(rng.choice(["A", "X", "1", "Y*2", "N%", "1/3", "0.1#"]))
             if fns and rng.random() < 0.5:
                 f2, k2, s2, ps2 = rng.choice(fns)
                 if not s2:
@@ -59,14 +60,15 @@ def gen_program(rng):
         args = []
         for p in ps:
             if p.endswith("$"):
-                args.append(rng.choice(['"ab"', "S$", '"é"']))
+                args.append(rng.choice(['"ab"', "S$", '"é"', '""']))
             else:
                 r = rng.random()
                 if r < 0.3 and depth < 3:
                     c = call(depth + 1)
                     args.append(c[0] if not c[1] else "LEN(%s)" % c[0])
                 else:
-                    args.append(rng.choice(["1", "2.5", "A", "X+1", "-3", "N%", "1.5"]))
+                    # 0 matters: a parameter bound to 0 or "" is not stored, it is read back as the default of its type
+                    args.append(rng.choice(["1", "2.5", "A", "X+1", "-3", "N%", "1.5", "0", "0", "A-5", "1/3"]))
         r = rng.random()
         if r < 0.06:
             args = args[:-1] or ["1", "2", "3", "4"]          # wrong arity
@@ -108,8 +110,30 @@ SPECIALS = [
 ]
 
 
+def typed_parameter_programs():
+    """an unsuffixed parameter takes its type from its own letter -- also when it is bound to 0 or "" (which is not stored but read back
+    as the default of its type) and whatever the DEFtype of the letter F is"""
+    out = []
+    for deft in ("DEFINT", "DEFSNG", "DEFDBL", "DEFSTR"):
+        for letters in ("P", "F", "F-P", "A-E", "Q-Z"):
+            covered = letters in ("P", "F-P")
+            p_is_str = deft == "DEFSTR" and covered
+            body = 'P+"!"' if p_is_str else "P+1/3"
+            args = ['"AB"', '""'] if p_is_str else ["1", "0", "2.5", "0!", "0#"]
+            prog = ["10 %s %s" % (deft, letters), "20 DEF FNH(P)=%s" % body, "25 DEF FNK(X,P)=%s" % ("LEN(P)+X" if p_is_str else "P*2+X/3")]
+            n = 30
+            for a in args:
+                prog.append("%d PRINT FNH(%s);FNK(0,%s);FNK(1,%s)" % (n, a, a, a))
+                n += 10
+            prog.append("%d P=9:PRINT FNH(%s);P" % (n, args[1]))
+            out.append(prog)
+    return out
+
+
 def gen(tier, rng):
     cases = []
+    for prog in typed_parameter_programs():
+        cases.extend(semcheck.cases_for(prog, [], rng, quanta=(5000,)))
     n = 400 if tier == "quick" else 15000
     for _ in range(n):
         prog = gen_program(rng)
